@@ -33,7 +33,7 @@ type method struct {
 
 type fact struct {
 	typ, name       string
-	locked          int // 0 no, 1 yes (Lock/RLock + deferred unlock at the top), 2 conditional on isBitSetMem
+	locked          int // 0 no, 1 Lock + deferred unlock at the top, 3 RLock likewise, 2 / 4 the same conditional on isBitSetMem
 	reads, writes   []string
 	argTouched      bool // touches guarded state of an argument of the same type
 	argLocked       bool
@@ -78,21 +78,28 @@ func lockCall(e ast.Expr, recv string) string {
 		return ""
 	}
 	switch sel.Sel.Name {
-	case "Lock", "RLock":
+	case "Lock":
 		return "lock"
+	case "RLock":
+		return "rlock"
 	case "Unlock", "RUnlock":
 		return "unlock"
 	}
 	return ""
 }
 
+func isLock(k string) bool { return k == "lock" || k == "rlock" }
+
 func lockedAtTop(body *ast.BlockStmt, recv string) int {
 	if body == nil || len(body.List) < 2 {
 		return 0
 	}
 	// plain: recv.lock.Lock(); defer recv.lock.Unlock()
-	if es, ok := body.List[0].(*ast.ExprStmt); ok && lockCall(es.X, recv) == "lock" {
+	if es, ok := body.List[0].(*ast.ExprStmt); ok && isLock(lockCall(es.X, recv)) {
 		if ds, ok := body.List[1].(*ast.DeferStmt); ok && lockCall(ds.Call, recv) == "unlock" {
+			if lockCall(es.X, recv) == "rlock" {
+				return 3
+			}
 			return 1
 		}
 		return 0
@@ -101,8 +108,11 @@ func lockedAtTop(body *ast.BlockStmt, recv string) int {
 	if is, ok := body.List[0].(*ast.IfStmt); ok && is.Else == nil && is.Init == nil {
 		if c, ok := is.Cond.(*ast.CallExpr); ok {
 			if id, ok := c.Fun.(*ast.Ident); ok && id.Name == "isBitSetMem" && len(is.Body.List) == 2 {
-				if es, ok := is.Body.List[0].(*ast.ExprStmt); ok && lockCall(es.X, recv) == "lock" {
+				if es, ok := is.Body.List[0].(*ast.ExprStmt); ok && isLock(lockCall(es.X, recv)) {
 					if ds, ok := is.Body.List[1].(*ast.DeferStmt); ok && lockCall(ds.Call, recv) == "unlock" {
+						if lockCall(es.X, recv) == "rlock" {
+							return 4
+						}
 						return 2
 					}
 				}
@@ -190,10 +200,18 @@ func (a *analyzer) touches(typ, v string, n ast.Node, reads, writes map[string]b
 					}
 				}
 			}
-			// heap.Push(&t.heap, ...), heap.Pop(&t.heap), heap.Remove(&t.heap, i)
+			// heap.Push(&t.heap, ...), heap.Pop(&t.heap), heap.Remove(&t.heap, i); atomic.AddUint64(&v.f[i][j], ..)
 			for _, arg := range s.Args {
 				if u, ok := arg.(*ast.UnaryExpr); ok && u.Op == token.AND {
-					if inner, ok := u.X.(*ast.SelectorExpr); ok {
+					base := u.X
+					for {
+						if ix, ok := base.(*ast.IndexExpr); ok {
+							base = ix.X
+							continue
+						}
+						break
+					}
+					if inner, ok := base.(*ast.SelectorExpr); ok {
 						if id, ok := inner.X.(*ast.Ident); ok && id.Name == v && g[inner.Sel.Name] {
 							writes[inner.Sel.Name] = true
 						}
@@ -308,7 +326,7 @@ func main() {
 							f.argTouched = true
 							// is the argument's lock taken anywhere in the body?
 							ast.Inspect(m.decl.Body, func(x ast.Node) bool {
-								if es, ok := x.(*ast.ExprStmt); ok && lockCall(es.X, nm.Name) == "lock" {
+								if es, ok := x.(*ast.ExprStmt); ok && isLock(lockCall(es.X, nm.Name)) {
 									f.argLocked = true
 								}
 								return true
@@ -355,6 +373,10 @@ func main() {
 			lk = "Locked"
 		case f.locked == 2:
 			lk = "LockedWhenInMemory"
+		case f.locked == 3:
+			lk = "ReadLocked"
+		case f.locked == 4:
+			lk = "ReadLockedWhenInMemory"
 		}
 		fmt.Printf("  mkFact %q %q %s %s %s %v %v%s\n", f.typ, f.name, lk, coqList(f.reads), coqList(f.writes),
 			coqBool(f.argTouched), coqBool(f.argLocked), sep)
